@@ -1256,6 +1256,10 @@ func stringToTTL(token string) (uint32, bool) {
 		default:
 			return 0, false
 		}
+		if s > math.MaxUint32 || i > math.MaxUint32 {
+			// Too large already; stop before the accumulators can wrap around.
+			return 0, false
+		}
 	}
 	if s+i > math.MaxUint32 {
 		return 0, false
